@@ -413,6 +413,7 @@ fn hostile_stream(class: usize, rng: &mut Rng) -> (Vec<u8>, String) {
             let nsteps = rng.range(1, 8) as usize;
             let steps = crate::chunk::gen_ser_steps(rng, nsteps, &lim, false);
             for st in steps {
+                if st.m.data.len() > 16_777_215 { continue; } // (refused calls contribute nothing to a stream)
                 let r = match st.setcs {
                     Some(v) => ser.set_max_chunk_size(v.max(1), RtmpTimestamp::new(st.m.ts)),
                     None => ser.serialize(&MessagePayload { timestamp: RtmpTimestamp::new(st.m.ts), type_id: st.m.ty, message_stream_id: st.m.msid,
@@ -544,6 +545,11 @@ fn run_case(c: &Value) -> (String, usize, Value) {
         "deser" => guard(&mut || {
             let (stream, class) = hostile_stream(c["class"].as_u64().unwrap_or(0) as usize, &mut rng);
             extra = json!({"class": class});
+            // what the harness allocated while BUILDING the input is not the library's doing: measure from here
+            PEAK.store(CUR.load(Ordering::Relaxed), Ordering::Relaxed);
+            if std::env::var("VH_DUMP").is_ok() {
+                eprintln!("stream {}", stream.iter().map(|b| format!("{:02x}", b)).collect::<String>());
+            }
             let mut d = ChunkDeserializer::new();
             let mut pos = 0;
             let mut res = "ok";
